@@ -359,6 +359,10 @@ def c04_4(ctx, R="C04.4", eps_only=None):
             bud = strip_all(eb.operand_term(t["args"][-1]))
             if not (bud[0] in ("var", "mutated", "arg") and "cost_left" in str(bud)) and "cost_left" not in str(bud) and "max_cost" not in str(bud):
                 ok_runs = False
+            # the budget is the remaining cost itself -- not reduced by an anticipated charge (which is only due under some
+            # fork rules and would make a limit equal to the total fail)
+            if _root_name(eb, t["args"][-1]) != "cost_left":
+                ok_runs = False
             after = [sb for sb, st in subs if eb.dominates(bi, sb) and "run_program" in str(strip_all(eb.operand_term(st["args"][1])))]
             if not after:
                 ok_runs = False
